@@ -17,7 +17,7 @@ fn piece_strategy(exclude: &[String]) -> impl Strategy<Value = Piece> {
     let allow_from = !exclude.iter().any(|s| s == "import-of-type-named-from");
     let imports = proptest::collection::btree_map(
         0..MODS.len(),
-        proptest::collection::btree_set(0..IMPORT_NAMES.len(), 1..4),
+        prop_oneof![4 => proptest::collection::btree_set(0..IMPORT_NAMES.len(), 1..4), 1 => proptest::collection::btree_set(0..IMPORT_NAMES.len(), 8..16)],
         0..4,
     );
     let doc = prop_oneof![
@@ -76,6 +76,10 @@ pub fn run(tier: &str, seed: u64, exclude: &[String]) -> Report {
     let distinct = std::cell::RefCell::new(std::collections::HashSet::new());
     let failed = std::cell::Cell::new(false);
     let perms: Vec<Vec<Vec<usize>>> = (0..6).map(permutations).collect();
+    let file_cases = std::cell::Cell::new(0u64);
+    let file_budget: u64 = if tier == "thorough" { 6_000 } else { 600 };
+    let file_dir = std::path::PathBuf::from(std::env::var("VERIF_WORK").unwrap_or_else(|_| ".".into())).join(format!("c05files-{}", std::process::id()));
+    std::fs::create_dir_all(&file_dir).ok();
     let result = runner.run(&strat, |pieces| {
         if pieces.len() < 2 {
             return Ok(());
@@ -111,6 +115,17 @@ pub fn run(tier: &str, seed: u64, exclude: &[String]) -> Report {
                 rr.samples.push(json!({"texts": texts, "orders_checked": orders.len()}));
             }
         }
+        // a part of the cases also through the code that really writes the file
+        if !failed.get() && file_cases.get() < file_budget {
+            file_cases.set(file_cases.get() + 1);
+            let names: Vec<String> = pieces.iter().map(|p| p.name.clone()).collect();
+            let two: Vec<Vec<usize>> = vec![orders[0].clone(), orders[orders.len() - 1].clone()];
+            r.borrow_mut().evaluations += 2;
+            if let Some(f) = check_set_files(note, &texts, &names, &two, &file_dir) {
+                failed.set(true);
+                return Err(TestCaseError::fail(f.to_string()));
+            }
+        }
         match check_set(note, &texts, &orders) {
             None => Ok(()),
             Some(f) => {
@@ -119,6 +134,8 @@ pub fn run(tier: &str, seed: u64, exclude: &[String]) -> Report {
             }
         }
     });
+    std::fs::remove_dir_all(&file_dir).ok();
+    r.borrow_mut().labels.insert("cases_through_the_file_writing_code".into(), file_cases.get());
     if let Err(e) = result {
         let f = crate::parse_failure(&e.to_string());
         r.borrow_mut().push_failure(f);
@@ -133,5 +150,13 @@ pub fn replay(case: &Value) -> Option<Value> {
         Some(o) => vec![o.iter().map(|x| x.as_u64().unwrap() as usize).collect()],
         None => permutations(texts.len()),
     };
+    if case["kind"] == "c05files" {
+        let names: Vec<String> = case["names"].as_array()?.iter().map(|t| t.as_str().unwrap().to_string()).collect();
+        let dir = std::path::PathBuf::from(std::env::var("VERIF_WORK").unwrap_or_else(|_| ".".into())).join(format!("c05files-replay-{}", std::process::id()));
+        std::fs::create_dir_all(&dir).ok();
+        let f = check_set_files(note, &texts, &names, &orders, &dir);
+        std::fs::remove_dir_all(&dir).ok();
+        return f;
+    }
     check_set(note, &texts, &orders)
 }
